@@ -234,3 +234,96 @@ Example grammar_samples :
   map spec_parse_range [bytes "bytes=2-5"; bytes "bytes=7-"; bytes "bytes=-3"; bytes "bytes=007-007"]
   = [Some (FromTo 2 5); Some (From 7); Some (Suffix 3); Some (FromTo 7 7)].
 Proof. vm_compute. reflexivity. Qed.
+
+(* ---------- the converse: whatever getRange accepts is a well-formed single range ---------- *)
+
+(* pieces cut at a one-byte separator do not contain it *)
+Lemma split_aux_pieces fuel : forall s c cur,
+  (length s < fuel)%nat -> ~ In c cur ->
+  forall p, In p (split_aux fuel s [c] cur) -> ~ In c p.
+Proof.
+  induction fuel as [|f IH]; intros s c cur Hlen Hcur p Hp; [lia|].
+  cbn [split_aux] in Hp. destruct s as [|x s'].
+  - destruct Hp as [Hp|[]]. subst p. rewrite <- in_rev. exact Hcur.
+  - cbn [has_prefix] in Hp. destruct (N.eqb x c) eqn:Hx; cbn [andb] in Hp.
+    + replace (has_prefix s' []) with true in Hp by (destruct s'; reflexivity).
+      destruct Hp as [Hp|Hp].
+      * subst p. rewrite <- in_rev. exact Hcur.
+      * cbn [length skipn] in Hp. apply (IH s' c [] ) in Hp; [exact Hp|cbn [length] in Hlen; lia|intros []].
+    + apply (IH s' c (x :: cur)) in Hp; [exact Hp|cbn [length] in Hlen; lia|].
+      intros [E|Hin]; [|exact (Hcur Hin)]. apply N.eqb_neq in Hx. exact (Hx E).
+Qed.
+
+Lemma parse_int_head_nonneg c s v : c <> 45%N -> parse_int (c :: s) = Some v -> 0 <= v.
+Proof.
+  intros Hc H. unfold parse_int in H. apply N.eqb_neq in Hc. rewrite Hc in H.
+  destruct (N.eqb c 43).
+  - destruct s as [|d s']; [discriminate|].
+    destruct (digits_val (d :: s') 0) as [v0|] eqn:Hv; [|discriminate].
+    destruct ((int64_min <=? v0) && (v0 <=? int64_max)); [|discriminate].
+    inversion H; subst. eapply digits_val_nonneg; [|exact Hv]. lia.
+  - destruct (digits_val (c :: s) 0) as [v0|] eqn:Hv; [|discriminate].
+    destruct ((int64_min <=? v0) && (v0 <=? int64_max)); [|discriminate].
+    inversion H; subst. eapply digits_val_nonneg; [|exact Hv]. lia.
+Qed.
+
+Lemma parse_int_dash_nonpos s v : parse_int (45%N :: s) = Some v -> v <= 0.
+Proof.
+  unfold parse_int. cbn [N.eqb Pos.eqb]. destruct s as [|d s']; [discriminate|].
+  destruct (digits_val (d :: s') 0) as [v0|] eqn:Hv; [|discriminate].
+  destruct ((int64_min <=? - v0) && (- v0 <=? int64_max)); [|discriminate].
+  intros H; inversion H; subst.
+  assert (0 <= v0) by (eapply digits_val_nonneg; [|exact Hv]; lia). lia.
+Qed.
+
+Theorem get_range_is_wellformed h rr :
+  get_range h = Some rr -> exists r, wellformed r /\ rr = to_rr r.
+Proof.
+  unfold get_range. destruct h as [|h0 ht]; [discriminate|]. set (h := h0 :: ht).
+  destruct (split h s_bytes_eq) as [|p0 [|bs [|x l]]]; try discriminate.
+  destruct (has_prefix bs s_dash) eqn:Hhead.
+  - (* the suffix form *)
+    apply has_prefix_spec in Hhead. destruct Hhead as [t Ht]. unfold s_dash in Ht. cbn [app] in Ht.
+    cbn [parse_opt]. rewrite Ht. cbn [parse_opt].
+    destruct (parse_int (45%N :: t)) as [v|] eqn:Hv; [|discriminate].
+    intros H. inversion H; subst rr.
+    exists (Suffix (- v)). split.
+    + cbn [wellformed]. apply parse_int_dash_nonpos in Hv. lia.
+    + cbn [to_rr]. rewrite Z.opp_involutive. reflexivity.
+  - destruct (split bs s_dash) as [|a [|b [|y l']]] eqn:Hs; try discriminate.
+    assert (Hbs : bs = a ++ [45%N] ++ b).
+    { rewrite <- (join_split bs [45%N]) by discriminate. unfold s_dash in Hs. rewrite Hs. reflexivity. }
+    assert (Hb : ~ In 45%N b).
+    { unfold split, s_dash in Hs. apply (split_aux_pieces (S (length bs)) bs 45%N []); [lia|intros []|].
+      rewrite Hs. right. left. reflexivity. }
+    destruct a as [|a0 ar].
+    { rewrite Hbs in Hhead. cbn in Hhead. discriminate. }
+    assert (Ha0 : a0 <> 45%N).
+    { intros E. subst a0. rewrite Hbs in Hhead. cbn in Hhead. discriminate. }
+    cbn [parse_opt].
+    destruct (parse_int (a0 :: ar)) as [sv|] eqn:Hsv; [|discriminate].
+    apply (parse_int_head_nonneg a0 ar sv Ha0) in Hsv.
+    destruct b as [|b0 br].
+    + cbn [parse_opt]. intros H. inversion H; subst rr.
+      exists (From sv). split; [exact Hsv|reflexivity].
+    + cbn [parse_opt]. destruct (parse_int (b0 :: br)) as [ev|] eqn:Hev; [|discriminate].
+      destruct (ev <? sv) eqn:Hlt; [discriminate|]. intros H. inversion H; subst rr.
+      apply Z.ltb_ge in Hlt.
+      exists (FromTo sv ev). split; [cbn [wellformed]; lia|reflexivity].
+Qed.
+
+(* every header getRange accepts - inside the grammar or not ("bytes=+1-2", "xbytes=1-2") -
+   is answered as some well-formed single range would be: exact 206, complete 200, or 416 *)
+Theorem accepted_header_answer_ok h rr resource :
+  get_range h = Some rr ->
+  exists r a, wellformed r /\ rr = to_rr r /\ range_answer rr resource = Some a /\ answer_ok r resource a = true.
+Proof.
+  intros Hg. destruct (get_range_is_wellformed h rr Hg) as [r [Hw Hr]].
+  destruct (range_answer_ok r resource Hw) as [a [Ha Hok]].
+  exists r, a. subst rr. repeat split; assumption.
+Qed.
+
+Example lenient_samples :
+  map get_range [bytes "bytes=+1-2"; bytes "xbytes=1-2"; bytes "bytes=-0"; bytes "bytes=1-2-3"; bytes "bytes=--1"]
+  = [Some (to_rr (FromTo 1 2)); Some (to_rr (FromTo 1 2)); Some (to_rr (Suffix 0)); None; None].
+Proof. vm_compute. reflexivity. Qed.
